@@ -767,6 +767,29 @@ int gen_fanin(Rng& r, std::function<void(int, int64_t, int64_t, int64_t)> add, i
   return k;
 }
 
+// Targeted shape ("double failure"): two vertices whose level-2 essential input
+// is empty fail on different threads at the same moment (and a third one may
+// publish the last target meanwhile): two finishers race for the closure.
+int gen_doublefail(Rng& r, std::function<void(int, int64_t, int64_t, int64_t)> add, int64_t& boolmask, int& ni) {
+  (void)boolmask;
+  ni = 2;
+  int k = ni;
+  int same = (int)r.range(1, 25);
+  auto vflags = [&]() { int64_t flags = 0; for (int c = 0; c < MAXCYC; c++) if (r.chance(1, 2)) flags |= (int64_t)r.range(1, 3) << (1 + 2 * c); return flags; };
+  for (int v = 0; v < 2; v++) {
+    add(K_VERTEX, r.chance(3, 4) ? same : (int64_t)r.range(1, 40), v, vflags());
+    add(K_EMIT, 1, v, k++);
+    add(K_DEP, 1, v, 0 | ((int64_t)2 << 20));  // input 0, essential level 2
+    if (r.chance(1, 2)) add(K_DEP, 1, v, 1);
+  }
+  if (r.chance(1, 2)) {
+    add(K_VERTEX, r.chance(1, 2) ? same : (int64_t)r.range(1, 40), 2, vflags());
+    add(K_EMIT, 1, 2, k++);
+    add(K_DEP, 1, 2, 1);
+  }
+  return k;
+}
+
 void gen(Rng& r, Plan& p, const GenParams& gp) {
   gen_common(r, p, SB_HALF, false, 3000);
   int ncyc = (int)r.range(1, 3);
@@ -777,10 +800,13 @@ void gen(Rng& r, Plan& p, const GenParams& gp) {
   int ni = 0, nd = 0;
   bool diamond = r.chance(1, 5);
   bool fanin = !diamond && r.chance(1, 6);
+  bool doublefail = !diamond && !fanin && r.chance(1, 8);
   if (diamond) {
     nd = gen_diamond(r, [&](int kind, int64_t a, int64_t b, int64_t c) { add(0, kind, a, b, c); }, boolmask, ni);
   } else if (fanin) {
     nd = gen_fanin(r, [&](int kind, int64_t a, int64_t b, int64_t c) { add(0, kind, a, b, c); }, boolmask, ni);
+  } else if (doublefail) {
+    nd = gen_doublefail(r, [&](int kind, int64_t a, int64_t b, int64_t c) { add(0, kind, a, b, c); }, boolmask, ni);
   } else {
     const int maxd = gp.thorough ? 12 : 10;
     int nv = (int)r.range(1, 6);
@@ -827,8 +853,8 @@ void gen(Rng& r, Plan& p, const GenParams& gp) {
   p.cfg["nd"] = nd;
   p.cfg["boolmask"] = boolmask;
   int x = (int)r.below(20);
-  p.cfg["exec"] = (diamond || fanin) ? (x < 2 ? 0 : x < 10 ? 1 : 2) : (x < 6 ? 0 : x < 13 ? 1 : 2);
-  p.cfg["workers"] = (int64_t)r.range((diamond || fanin) ? 2 : 1, 3);
+  p.cfg["exec"] = (diamond || fanin || doublefail) ? (x < 2 ? 0 : x < 10 ? 1 : 2) : (x < 6 ? 0 : x < 13 ? 1 : 2);
+  p.cfg["workers"] = (int64_t)r.range((diamond || fanin || doublefail) ? 2 : 1, 3);
   p.cfg["refuse_mask"] = gp.mode == 1 ? (int64_t)r.range(1, 63) : 0;
   p.cfg["max_idle_jumps"] = 6000;
   p.cfg["late_fatal"] = gp.mode == 3 ? 0 : 1;
@@ -838,8 +864,9 @@ void gen(Rng& r, Plan& p, const GenParams& gp) {
     bool conc_cycle = (gp.mode < 0 && r.chance(7, 20)) || (gp.mode >= 2 && r.chance(4, 5));
     for (int k = 0; k < nd; k++) {
       bool input = k < ni;
-      if (input ? !r.chance(fanin ? 50 : 48, 50) : !r.chance((diamond || fanin) ? 1 : 3, 50)) continue;
+      if (input ? !r.chance((fanin || doublefail) ? 50 : 48, 50) : !r.chance((diamond || fanin) ? 1 : 3, 50)) continue;
       int64_t fl = r.chance(1, 9) ? 1 : 0;
+      if (doublefail && input) fl = k == 0 ? (r.chance(9, 10) ? 1 : 0) : 0;
       if (input && conc_cycle && r.chance(1, 2)) fl |= 2 | ((int64_t)r.range(0, 6) << 8);
       add(t, K_INJECT, (int64_t)r.range(1, 1 << 20), k, fl);
     }
@@ -847,9 +874,10 @@ void gen(Rng& r, Plan& p, const GenParams& gp) {
     bool none = r.chance(1, 40);
     if (diamond && r.chance(4, 5)) { add(t, K_TARGET, 1, nd - 2, 0); add(t, K_TARGET, 1, nd - 1, 0); nt = 2; }
     else if (fanin) { add(t, K_TARGET, 1, nd - 1, 0); nt = 1; }
+    else if (doublefail) { for (int k = ni; k < nd; k++) { add(t, K_TARGET, 1, k, 0); nt++; } }
     else
       for (int k = 0; k < nd && !none; k++)
-        if (r.chance(k < ni ? 2 : 9, 25)) { add(t, K_TARGET, 1, k, 0); nt++; }
+        if (r.chance(k < ni ? (conc_cycle ? 8 : 2) : 9, 25)) { add(t, K_TARGET, 1, k, 0); nt++; }  // a concurrently injected input is often itself a target
     if (nt == 0 && !none) add(t, K_TARGET, 1, (int64_t)r.range(ni < nd ? ni : 0, nd - 1), 0);
   }
 }
